@@ -221,7 +221,7 @@ def make_cases(ctx: Ctx) -> list[dict]:
                 bases.append(rig.minimal_base(asn4, kind, code))
                 for k in rig.KINDS:
                     plan.append((len(bases) - 1, code, k))
-    nrand = 2000 if ctx.tier == 'quick' else 40000
+    nrand = 1200 if ctx.tier == 'quick' else 40000
     for _ in range(nrand):
         asn4 = rng.random() < 0.5
         kind = rng.choice(['v4', 'v4', 'mp', 'v4mp'])
@@ -248,7 +248,7 @@ def make_cases(ctx: Ctx) -> list[dict]:
             continue
         cases.append({'asn4': b['asn4'], 'nlri': b['kind'], 'code': code, 'kind': kind, 'body': rig.join_body(wd, blk, nlri), 'origin': 'minimal' if bi < len(bases) - nrand else 'random'})
     # a malformed stream: random single-byte edits of the attribute block, and blocks of random bytes
-    nfuzz = 1500 if ctx.tier == 'quick' else 40000
+    nfuzz = 1000 if ctx.tier == 'quick' else 40000
     for _ in range(nfuzz):
         bi = rng.randrange(len(bases))
         wd, block, nlri = rig.split_body(bodies[bi])
@@ -365,7 +365,7 @@ def run(ctx: Ctx) -> None:
         cases = load_corpus() + make_cases(ctx)
         results = []
         for case in cases:
-            if ctx.time_left() < (10 if ctx.tier == 'quick' else 90):
+            if ctx.time_left() < (25 if ctx.tier == 'quick' else 120):
                 ctx.notes.append(f'budget reached after {ctx.evaluations} cases of {len(cases)}')
                 break
             s = S[case['asn4']]
